@@ -32,15 +32,16 @@ struct Ev {
     a: usize,
     b: usize,
     seqcst: bool,
+    rel: bool, // ordering includes Release
 }
 const CAP: usize = 24;
-static mut TR: [Ev; CAP] = [Ev { k: 0, a: 0, b: 0, seqcst: false }; CAP];
+static mut TR: [Ev; CAP] = [Ev { k: 0, a: 0, b: 0, seqcst: false, rel: false }; CAP];
 static mut TN: usize = 0;
 static mut CNT: [usize; 12] = [0; 12];
 static mut FIRST: [usize; 12] = [usize::MAX; 12];
 unsafe fn ev(k: u8, a: usize, b: usize, o: Option<Ordering>) {
     assert!(TN < CAP, "ghost trace capacity (harness bug, not a property)");
-    TR[TN] = Ev { k, a, b, seqcst: matches!(o, Some(Ordering::SeqCst)) };
+    TR[TN] = Ev { k, a, b, seqcst: matches!(o, Some(Ordering::SeqCst)), rel: matches!(o, Some(Ordering::SeqCst) | Some(Ordering::AcqRel) | Some(Ordering::Release)) };
     if CNT[k as usize] == 0 {
         FIRST[k as usize] = TN;
     }
@@ -242,7 +243,10 @@ hl_stubs! {
             assert!(TN == 3 && TR[0].k == GEN_LOAD && TR[1].k == LOCK_ADD && TR[2].k == DATA_LOAD,
                 "C01.R-ORDER: a reader loads the generation, then announces itself on a slot, and only THEN loads the snapshot pointer - and touches nothing else");
             assert!(TR[1].a == TR[0].b % 2 && TR[1].b == 1, "C01.R-SLOT: the reader increments, by one, the slot selected by the generation it loaded");
-            assert!(TR[0].seqcst && TR[1].seqcst && TR[2].seqcst, "C01.R-SEQCST: all three reader accesses are SeqCst (the interleaving argument assumes one total order)");
+            // announce-then-load on the reader side against swap-then-check on the writer side is a
+            // store/load (Dekker) pattern: it needs SeqCst on those four accesses. The generation load only
+            // picks a slot (any ordering), the decrement only has to be a release.
+            assert!(TR[1].seqcst && TR[2].seqcst, "C01.R-SEQCST: the reader's announcement (fetch_add) and its pointer load are SeqCst (store/load pattern against the writer's swap and counter loads)");
             assert!(g.data as *const Pl == cur as *const Pl && TR[2].b == cur as usize, "C01.R-PTR: the guard gives out exactly the pointer loaded after the announcement");
             assert!(g.lock as *const AtomicUsize as usize == LOCK_ADDR[TR[1].a], "C01.R-DEC: the guard remembers the slot it incremented");
             assert!(g.0 == 1, "C01.R-PTR: and it dereferences to the current snapshot");
@@ -251,7 +255,7 @@ hl_stubs! {
         let slot = unsafe { TR[1].a };
         drop(g);
         unsafe {
-            assert!(TN == 1 && TR[0].k == LOCK_SUB && TR[0].a == slot && TR[0].b == 1 && TR[0].seqcst,
+            assert!(TN == 1 && TR[0].k == LOCK_SUB && TR[0].a == slot && TR[0].b == 1 && TR[0].rel,
                 "C01.R-DEC: dropping the guard decrements the same slot exactly once, and does nothing else (no free, no lock, no wait)");
             assert!(count(FREE) == 0 && count(YIELD) == 0 && count(SPIN) == 0, "C03.READ-WAITFREE: the read side never frees, yields or spins");
             ENV_ON = false;
@@ -310,7 +314,7 @@ unsafe fn barrier_post(k_budget: usize) {
     assert!(ZERO_SEEN_AFTER_SWAP[0] && ZERO_SEEN_AFTER_SWAP[1], "C01.W-ZERO: the barrier returns only after EACH of the two reader slots was observed at zero since the swap");
     assert!(count(GEN_ADD) == 1, "C18.FLIP-ONCE: the generation is advanced exactly once per barrier");
     let f = first(GEN_ADD);
-    assert!(TR[f].a % 2 == 1 && TR[f].seqcst, "C18.FLIP-ONCE: the flip switches new readers to the other slot (odd increment, SeqCst)");
+    assert!(TR[f].a % 2 == 1, "C18.FLIP-ONCE: the flip switches new readers to the other slot (odd increment)");
     assert!(f <= 2, "C18.FLIP-BEFORE-WAIT: the flip happens before the waiting loop, so the slot being waited for only drains");
     let _ = k_budget;
 }
